@@ -271,6 +271,8 @@ where
             })
             .collect::<Result<Vec<_>, _>>()?
     };
+    #[cfg(feature = "verif-hooks")]
+    crate::plonk::verif_hooks::on_instance_evals(&x, &instance_evals);
 
     let advice_evals = (0..num_proofs)
         .map(|_| -> Result<Vec<_>, _> { read_n(transcript, vk.cs.advice_queries.len()) })
